@@ -444,3 +444,23 @@ pub(crate) fn lib_deallocate_list_releases_boxes() {
     state(|s| crate::deallocate_list(lp::ll_from(first), s));
     let _ = crate::utils::verif_proofs::expect_freed(x.as_ptr() as *const u8);
 }
+
+/// executions_count() counts every collection actually STARTED: also one that unwinds out of a callback.
+//@ C11 C07 | bounded: one buffered object whose trace panics (emulated unwind) | deciding | feat=full,std | fn=collect,collect_cycles | timeout=600
+#[kani::proof]
+#[kani::unwind(12)]
+pub(crate) fn lib_collect_counts_the_execution_even_when_it_unwinds() {
+    #[cfg(feature = "auto-collect")]
+    let _ = crate::config::config(|c| c.set_auto_collect(false));
+    let h = ccp::mk_node(0);
+    drop(h.clone()); // buffered
+    g().fault_kind = 1;
+    g().fault_k = 1;
+    let e0 = state(|s| sp::snap(s)).execs;
+    crate::collect_cycles();
+    kani::assert(ghost::catch(), "collect::unwind::panic_propagates_to_the_caller");
+    let sn = state(|s| sp::snap(s));
+    kani::assert(sn.execs == e0 + 1, "collect::post::executions_count_plus_one_for_every_collection_started");
+    kani::assert(!sn.collecting && !sn.finalizing && !sn.dropping, "collect::unwind::collecting_false");
+    core::mem::forget(h);
+}
